@@ -5,9 +5,9 @@ import gen as G
 
 MODEL_TARGETS = ["model/SchemaJson.vo", "model/Parse.vo", "model/JsonRead.vo", "proofs/JsonReadSchema.vo", "model/CanonicalForm.vo"]
 COQ_TARGETS = ["props/C09.vo"]
-THEOREMS = [("C09", ["C09_regen", "C09_unnamed_cycle_rejected", "C09_renders_when_wf", "C09_edge_ref", "C09_edge_def", "C09_regen_text_roundtrip", "C09_regen_text_full_names_roundtrip", "C09_text_whitespace_insensitive", "C09_json_text_roundtrip"])]
+THEOREMS = [("C09", ["C09_regen", "C09_unnamed_cycle_rejected", "C09_renders_when_wf", "C09_edge_ref", "C09_edge_def", "C09_regen_text_roundtrip", "C09_regen_text_full_names_roundtrip", "C09_text_whitespace_insensitive", "C09_json_text_roundtrip", "C09_regen_text_graph_bound", "C09_document_depth_bound", "C09_no_linear_depth_bound"])]
 PROOF_FILES = ["proofs/SchemaTextProofs.v", "proofs/SchemaJsonDefs.v", "proofs/SchemaJsonGuard.v", "proofs/SchemaJsonCfOk.v", "proofs/SchemaJsonRaw.v",
-               "proofs/SchemaJsonCf.v", "proofs/SchemaJsonSim.v", "proofs/SchemaJsonProofs.v", "proofs/JsonReadProofs.v", "proofs/JsonReadSchema.v", "props/C09.v"]
+               "proofs/SchemaJsonCf.v", "proofs/SchemaJsonSim.v", "proofs/SchemaJsonProofs.v", "proofs/JsonReadProofs.v", "proofs/JsonReadSchema.v", "proofs/JsonReadDepth.v", "props/C09.v"]
 TRUSTED_BASE = [
     "Coq 8.16.1 kernel; no axioms (Print Assumptions: closed)",
     "hand-written models SchemaJson.v (serialize.rs: named node written once then by reference, namespace-relative spelling, generation-counter cycle guard), Parse.v, CanonicalForm.v tied by the correspondence run (JSON text, re-parsed node kinds / logical types / fingerprint, model vs crate)",
@@ -141,6 +141,35 @@ def parsed_documents(ctx, rng, violations, diffs, samples, dist, distinct):
             samples.append({"document": t[:300], "reported": got[:300]})
     return len(plines) + len(clines)
 
+def deep_graph(n, m):
+    """m chained arrays, then a union of n records, each with one field pointing back to node 0"""
+    nodes = [G.Node("array", items=i + 1) for i in range(m)]
+    nodes.append(G.Node("union", variants=[m + 1 + i for i in range(n)]))
+    for i in range(n):
+        nodes.append(G.Node("record", name="R%d" % i, fields=[("f", 0)]))
+    return nodes
+
+def json_nesting(text):
+    """maximal nesting of [ and { outside strings"""
+    d = best = 0
+    ins = esc = False
+    for ch in text:
+        if ins:
+            if esc:
+                esc = False
+            elif ch == "\\":
+                esc = True
+            elif ch == '"':
+                ins = False
+        elif ch == '"':
+            ins = True
+        elif ch in "[{":
+            d += 1
+            best = max(best, d)
+        elif ch in "]}":
+            d -= 1
+    return best
+
 def run(ctx):
     rng = random.Random(ctx["seed"] * 1000003 + 9)
     n = 900 if ctx["tier"] == "quick" else 40000
@@ -163,6 +192,12 @@ def run(ctx):
         else:
             nodes = G.GraphGen(rng, logical=0.2).build()
         graphs.append(nodes)
+    # shared chains of unnamed nodes are written out again under every named type that leads back to them: the regenerated document of
+    # a small graph can be deeper than serde_json's recursion limit (JsonReadDepth.nineteen_nodes_too_deep: 8 chained arrays, a union of
+    # 10 records each pointing back to the head: 19 nodes, document depth 129). The 17-node member must re-parse; the 19-node one is
+    # known finding KF4 while it does not.
+    for (kn, km) in ((8, 8), (10, 8)):
+        graphs.append(deep_graph(kn, km))
     lines = ["freeze " + G.schema_sx(g) for g in graphs]
     impl = C.run_parallel(C.AVRODRIVE, lines)
     model = C.run_parallel(C.AVROMODEL, lines)
@@ -249,7 +284,11 @@ def run(ctx):
             names = [g[k].name for k in cls["reachable"] if g[k].t in ("record", "enum", "fixed")]
             if all(nm and not nm.startswith(".") and not nm.endswith(".") and ".." not in nm and
                    nm not in G.PRIMS + ["array", "map", "record", "enum", "fixed"] for nm in names):
-                violations.append({"impl_case": line, "what": "the regenerated JSON does not parse back", "json": doc[:600], "impl": res[:300]})
+                v = {"impl_case": line, "what": "the regenerated JSON does not parse back", "json": doc[:600], "impl": res[:300]}
+                if json_nesting(doc) > 128:
+                    v["class"] = "regenerated-json-deeper-than-128"
+                    v["what"] += " (the document nests %d levels: beyond serde_json's recursion limit of 128)" % json_nesting(doc)
+                violations.append(v)
             continue
         if pr[3] != pi[1]:
             violations.append({"impl_case": line, "what": "the regenerated JSON parses to a schema with a different fingerprint", "json": doc[:600]})
